@@ -25,7 +25,7 @@ TASKS = [
 # ---------------------------------------------------------------------------------------------------------------------
 # _rpds_single_component under contract: accumulation over the windows and the Welch scaling chain.  window / rfft / conjugate / real are
 # uninterpreted (the spectrum of a window is an opaque array of the window), the taper's mean square is the function's own local.
-from pyvc.core import I, R, FuncV, ModV, DictV, StrV, Tup, ArrData, NONE, real as real_
+from pyvc.core import I, R, FuncV, ModV, DictV, StrV, Tup, ArrData, NONE, Undecided, real as real_
 from pyvc.contract import Contract, FunctionTask, sym_obj
 from pyvc import objects, npmodel as npm
 from pyvc.objects import new_symlist
@@ -43,7 +43,8 @@ RFFT = z3.Function("RFFT", AR, I, I, AR)
 CONJ = z3.Function("CONJ", AR, AR)
 REALP = z3.Function("REALP", R, R)
 ONES = z3.Const("ones", AR)
-PSUM = z3.Function("PSUM", I, I, R)          # PSUM(k, c) = sum over the first k windows of the power of bin c
+PSUM = z3.Function("PSUM", I, I, R)          # PSUM(k, c) = sum over the first k windows of the power of bin c, each divided by its taper's mean square and its length
+TMS = z3.Function("TAPER_MEAN_SQUARE", I, R, R)   # mean square of the taper of a given length and width (np.mean(window(ones)**2): opaque, positive)
 
 
 def SPEC(tsid):
@@ -56,7 +57,8 @@ def PW(tsid, c):
 
 _k, _c = z3.Ints("k!p c!p")
 AX_PSD = [z3.ForAll([_c], PSUM(0, _c) == 0, patterns=[PSUM(0, _c)]),
-          z3.ForAll([_k, _c], z3.Implies(_k >= 0, PSUM(_k + 1, _c) == PSUM(_k, _c) + PW(z3.Select(TS, _k), _c)), patterns=[PSUM(_k + 1, _c)])]
+          z3.ForAll([_k, _c], z3.Implies(_k >= 0, PSUM(_k + 1, _c) == PSUM(_k, _c) + PW(z3.Select(TS, _k), _c) / TMS(TSLEN(z3.Select(TS, _k)), WIDTH)
+                                         / z3.ToReal(TSLEN(z3.Select(TS, _k)))), patterns=[PSUM(_k + 1, _c)])]
 
 
 def _m_from_timeseries(ex, st, args, kw, node):
@@ -96,8 +98,29 @@ def _m_ones_like(ex, st, args, kw, node):
     return ex.alloc_arr(st, ex.arr(st, args[0]).shape, ONES, "real", "fresh", tag="ones")
 
 
+def _find_taper(t):
+    """the application WIN(ONES, n, width) inside a term, if any"""
+    if z3.is_app(t):
+        if t.decl().eq(WIN) and t.arg(0).eq(ONES):
+            return t
+        for ch in t.children():
+            r = _find_taper(ch)
+            if r is not None:
+                return r
+    if z3.is_quantifier(t):
+        return _find_taper(t.body())
+    return None
+
+
 def _m_mean(ex, st, args, kw, node):
-    r = ex.fresh("taper_mean_square", R)
+    """np.mean(window.amplitude**2) of a tapered all-ones series: the taper's mean square for that length and width"""
+    d = ex.arr(st, args[0])
+    i0 = z3.Int("i!tms")
+    e = z3.simplify(z3.Select(d.data, i0))
+    w = _find_taper(e)
+    if w is None or not z3.simplify(e - z3.Select(w, i0) * z3.Select(w, i0)).eq(z3.RealVal(0)):
+        raise Undecided("np.mean of something other than the squared taper")
+    r = TMS(w.arg(1), w.arg(2))
     st.pc.append(r > 0)          # assumption: the taper is not identically zero
     return r
 
@@ -109,10 +132,10 @@ _NP = ModV("np", dict(npm.NP.attrs, conjugate=FuncV(_m_conj, "np.conjugate"), re
 def _rpds_inputs(ex, st):
     st.env["timeseries"] = new_symlist(ex, st, "TimeSeries", length=L, arr=TS, owner="param:timeseries", name="timeseries")
     st.env["settings"] = sym_obj(ex, st, "Settings", {"fft_settings": DictV({"n": NFFT}), "window_type_and_width": Tup((StrV("tukey"), WIDTH))}, owner="param:settings")
-    st.env["L"], st.env["NFFT"], st.env["NS0"], st.env["DT0"] = L, NFFT, NS0, DT0
+    st.env["L"], st.env["NFFT"], st.env["DT0"] = L, NFFT, DT0
     k = z3.Int("k!in")
-    return [L >= 1, NFFT >= 2, NFFT % 2 == 0, NS0 >= 1, DT0 > 0,
-            z3.ForAll([k], z3.And(TSLEN(z3.Select(TS, k)) == NS0, TSDT(z3.Select(TS, k)) == DT0), patterns=[z3.Select(TS, k)])]
+    return [L >= 1, NFFT >= 2, NFFT % 2 == 0, DT0 > 0,
+            z3.ForAll([k], z3.And(TSLEN(z3.Select(TS, k)) >= 1, TSDT(z3.Select(TS, k)) == DT0), patterns=[z3.Select(TS, k)])]
 
 
 def _tseries_havoc(ex, st, v):
@@ -125,11 +148,12 @@ RPDS = Contract(
     ghost={"PSUM": PSUM}, make_inputs=_rpds_inputs, obj_havoc={"tseries": _tseries_havoc}, stable_shapes=("psd",),
     requires=[],
     ensures=["len(result) == NFFT / 2 + 1",
-             "forall(c, 0, NFFT / 2 + 1, result[c] == ((((PSUM(L, c) / window_scaling_factor) / NS0) / (1 / DT0)) * 2) / L)"],
+             "forall(c, 0, NFFT / 2 + 1, result[c] == ((PSUM(L, c) / (1 / DT0)) * 2) / L)"],
     loops={0: ["forall(c, 0, NFFT / 2 + 1, psd[c] == PSUM(_k0, c))",
-               "_k0 == 0 or (tseries.n_samples == NS0 and tseries.dt_in_seconds == DT0)"]},
-    modifies=[], notes="sum over the windows of |X_w[c]|^2, divided by the taper's mean square, the number of samples, the sampling rate and the number of "
-                       "windows, times two (one-sided); equal window lengths and steps and an even FFT length are preconditions")
+               "_k0 == 0 or tseries.dt_in_seconds == DT0"]},
+    modifies=[], notes="sum over the windows of |X_w[c]|^2 / (mean square of that window's taper x that window's number of samples), divided by the sampling rate "
+                       "and the number of windows, times two (one-sided): the average of the single-window densities also when a final window is one sample "
+                       "short; equal time steps and an even FFT length are preconditions")
 RPDS.array_fields_as_terms = True
 RPDS.loop_born = {"tseries": _tseries_havoc}
 TASKS.append(FunctionTask(RPDS, module_env={"np": _NP, "rfft": FuncV(_m_rfft, "rfft"),
@@ -137,8 +161,13 @@ TASKS.append(FunctionTask(RPDS, module_env={"np": _NP, "rfft": FuncV(_m_rfft, "r
                           registry={"TimeSeries.window": FuncV(_m_window, "TimeSeries.window")},
                           clauses=["Welch accumulation and scaling chain"]))
 S_, W_, n_, f_, l_ = z3.Reals("S W n f l")
-TASKS.append(LemmaTask("scaling-chain-closed-form", [W_ > 0, n_ > 0, f_ > 0, l_ > 0], ((((S_ / W_) / n_) / f_) * 2) / l_ == 2 * S_ / (W_ * n_ * f_ * l_),
-                       "the chain of in-place scalings equals 2 S / (mw2 N fs W) - the PSD spec of the lemmas above"))
+TASKS.append(LemmaTask("scaling-chain-closed-form", [W_ > 0, n_ > 0, f_ > 0, l_ > 0], (((S_ / W_ / n_) / f_) * 2) / l_ == 2 * S_ / (W_ * n_ * f_ * l_),
+                       "one window's term, scaled by the chain of in-place scalings, equals 2 P / (mw2 N fs W) - the PSD spec of the lemmas above"))
+# Welch for windows of any lengths: the density of W windows is the average of the W single-window densities (one-window case of the same postcondition)
+_p1, _p2, _t1, _t2, _n1, _n2, _fs = z3.Reals("p1 p2 t1 t2 n1 n2 fs")
+TASKS.append(LemmaTask("welch-average-unequal-lengths", [_t1 > 0, _t2 > 0, _n1 > 0, _n2 > 0, _fs > 0],
+                       (((0 + _p1 / _t1 / _n1 + _p2 / _t2 / _n2) / _fs) * 2) / 2 == ((((0 + _p1 / _t1 / _n1) / _fs) * 2) / 1 + (((0 + _p2 / _t2 / _n2) / _fs) * 2) / 1) / 2,
+                       "two windows of different lengths: the postcondition's value is the average of the two one-window values"))
 
 # diffuse_field_hvsr_processing and rpsd: which recordings / components / FFT length / operator arguments / formula give the result
 import contracts.drv_psd as _DRVPSD
